@@ -122,7 +122,7 @@ def decide(h, seed=0, nvalidate=2, max_paths=20000, time_limit=None, replay_dir=
         harness=type(h).__name__, cfg=h.describe(), paths=0, aborted=0, fork_queries=0,
         final_queries=0, unsat=0, sat=0, unknown=0, solver_s=0.0, validations=0,
         validation_mismatch=[], violations=[], findings=[], spurious=[], errors=[], samples=[],
-        reach_sat=0, obligations=0, ops={},
+        reach_sat=0, obligations=0, ops={}, cross=dict(asked=0, unsat=0, unknown=0, disagree=0),
     )
     stats = {}
     try:
@@ -164,6 +164,35 @@ def _run_symbolic(h, eng):
         # an exception thrown by library/torch code on this path: the real call would raise too (confirmed by replay)
         out = dict(outputs=[], viol=[(f"raises: {type(e).__name__}: {str(e)[:200]} @ {_where(e)}", True)], raised=str(e))
     return out
+
+
+CROSSCHECK = int(os.environ.get("VERIF_CROSSCHECK", "0"))  # number of property queries per task re-checked with cvc5
+
+
+def cvc5_verdict(smt2_text, timeout_ms=30000):
+    """second opinion on an SMT-LIB2 query (as printed by z3) from cvc5's Python API: 'sat' | 'unsat' | 'unknown' | 'error: ...'"""
+    try:
+        import cvc5
+        slv = cvc5.Solver()
+        slv.setOption("tlimit-per", str(timeout_ms))
+        slv.setLogic("ALL")
+        parser = cvc5.InputParser(slv)
+        parser.setStringInput(cvc5.InputLanguage.SMT_LIB_2_6, smt2_text, "query")
+        sm = parser.getSymbolManager()
+        out = []
+        while True:
+            cmd = parser.nextCommand()
+            if cmd.isNull():
+                break
+            r = cmd.invoke(slv, sm)
+            if r:
+                out.append(str(r).strip())
+        for o in reversed(out):
+            if o in ("sat", "unsat", "unknown"):
+                return o
+        return "unknown"
+    except Exception as e:  # parse problems etc. are inconclusive, never a verdict
+        return "error: " + str(e)[:120]
 
 
 def _check(s, res):
@@ -236,6 +265,19 @@ def _decide_path(h, dec, eng, out, res, rng, nvalidate, replay_dir, prop):
         r = _check(s, res)
         if r == z3.unsat:
             res["unsat"] += 1
+            if res.get("cross", {}).get("asked", 0) < CROSSCHECK:
+                cr = res.setdefault("cross", dict(asked=0, unsat=0, unknown=0, disagree=0))
+                cr["asked"] += 1
+                t = time.time()
+                v = cvc5_verdict(s.to_smt2())
+                cr["cvc5_s"] = cr.get("cvc5_s", 0.0) + time.time() - t
+                if v == "unsat":
+                    cr["unsat"] += 1
+                elif v == "sat":
+                    cr["disagree"] += 1
+                    res["errors"].append(f"solver disagreement: z3 unsat, cvc5 sat on path {dec}")
+                else:
+                    cr["unknown"] += 1
         elif r == z3.unknown:
             res["unknown"] += 1
             res["errors"].append(f"violation query unknown on path {dec}: {s.reason_unknown()}")
